@@ -182,12 +182,17 @@ def run_e2(h):
     res["solver_time_s"] = round(solver_time, 2)
     res["mir_dump_s"] = round(dump_s, 1)
     res["wall_s"] = round(time.time() - t0, 1)
-    if inconclusive:
+    if failed:
+        # a satisfiable query is a counterexample whatever the state of the other queries
+        # (queries that depend on a refuted lemma are then necessarily inconclusive)
+        res["verdict"] = "FAILED"
+        res["inconclusive_queries"] = inconclusive
+    elif inconclusive:
         res["error"] = "e2-inconclusive"
         res["error_text"] = ", ".join(inconclusive)
         res["verdict"] = None
     else:
-        res["verdict"] = "FAILED" if failed else "SUCCESSFUL"
+        res["verdict"] = "SUCCESSFUL"
     return res
 
 
